@@ -233,7 +233,8 @@ PROPS["C19"] = {
     "rule": "cases are (program text, initial context) resp. (selection history) resp. (schedule); enumerated by a generator over the grammar / odometers; distinct by 64-bit hash; states = programs x contexts; transitions = model statements executed (each compared with the implementation trace).",
     "assumptions": ["structured-exception semantics as stated in the property with finaliser-before-handler order", "CHECK and VERBS on (shipped)"],
     "jobs": [
-        {"name": "err-w64", "world": "W64", "src": "props/C19_err.c"},
+        {"name": "err-w64", "world": "W64", "src": "props/C19_err.c", "share": 0.4},
+        {"name": "ctx-w64", "world": "W64", "src": "props/C19_ctx.c"},
     ],
 }
 
